@@ -677,3 +677,22 @@ Fixpoint unclaimed (parse_all : bool) (c : N) (s : srv808) (evs : list sev) : bo
 (* connection c owns no key after any prefix of the events (it never joined, or whatever it claimed was refused) *)
 Definition never_owns (parse_all : bool) (c : N) (s : srv808) (evs : list sev) : bool :=
   forallb (fun n => holds_no_key c (fold_left (step808 parse_all) (firstn n evs) s)) (seq 0 (S (length evs))).
+
+(* every key connection c claims is in use at that moment (it is refused each time) *)
+Fixpoint all_claims_refused (parse_all : bool) (c : N) (s : srv808) (evs : list sev) : bool :=
+  match evs with
+  | [] => true
+  | e :: t =>
+    match e with
+    | Data c0 now d =>
+      negb (c0 =? c) ||
+      match cfind c (v_conns s) with
+      | Some k => match claimed_key now k d with
+                  | Some key => taken_by_others c (v_conns s) key
+                  | None => true
+                  end
+      | None => true
+      end
+    | _ => true
+    end && all_claims_refused parse_all c (step808 parse_all s e) t
+  end.
